@@ -627,7 +627,17 @@ def reassemble(codec, m, k, pathvars, rec, numeric, sent):
     b = m["bindings"][k]
     primary = m["bindings"][0]
     problems = []
-    reason = "additional-binding" if k != 0 else "primary-binding"
+
+    def bound_by(bb, name):
+        return bb["body"] in ("*", name) or any(p == name for (p, _t, _s) in bb["vars"])
+
+    def reason_for(name, dup):
+        """`additional-binding` ONLY for the recorded root cause: the defaults table is computed from the primary binding,
+        so with another binding in use a field the primary leaves unbound is defaulted although bound now (dup), or a field
+        the primary binds is not defaulted although unbound now (missing); anything else keeps a generic reason"""
+        if k != 0 and bound_by(primary, name) != dup and bound_by(b, name) == dup:
+            return "additional-binding"
+        return "primary-binding" if k == 0 else "binding-in-use"
     # --- path
     P = {}
     for (path, typ, tmpl) in b["vars"]:
@@ -673,7 +683,8 @@ def reassemble(codec, m, k, pathvars, rec, numeric, sent):
     fixed = []
     for (kk, v) in pairs:
         fd = find_field(desc, kk)
-        if fd is not None and fd.type == FD.TYPE_BYTES and fd.label != fd.LABEL_REPEATED and v == "b''":
+        if (fd is not None and fd.type == FD.TYPE_BYTES and fd.label != fd.LABEL_REPEATED and v == "b''"
+                and any(fs["name"] == fd.name and fs.get("required") for fs in m["fields"])):
             problems.append(("required-default-bytes-literal", f"query parameter {kk}=b'' (python repr of bytes) for an unset required bytes field"))
             v = ""
         fixed.append((kk, v))
@@ -693,8 +704,11 @@ def reassemble(codec, m, k, pathvars, rec, numeric, sent):
     pairs = kept
     if b["body"] == "*" and pairs:
         defaults = [kk for (kk, v) in pairs if (fd := find_field(desc, kk)) is not None and fd.type in SCALAR_TYPES and is_default_text(fd, v)]
-        if len(defaults) == len(pairs):
-            problems.append((f"dup:body+query-required-default:{reason}", f"body is `*` yet default-valued {defaults} travel in the query"))
+        isreq = {fs["name"] for fs in m["fields"] if fs.get("required")}
+        if len(defaults) == len(pairs) and all(find_field(desc, kk).name in isreq for kk in defaults):
+            why = "additional-binding" if all(reason_for(find_field(desc, kk).name, True) == "additional-binding" for kk in defaults) else \
+                ("primary-binding" if k == 0 else "binding-in-use")
+            problems.append((f"dup:body+query-required-default:{why}", f"body is `*` yet default-valued {defaults} travel in the query"))
         else:
             problems.append(("query-with-star-body", f"body is `*` yet query carries {pairs}"))
         pairs = []
@@ -710,8 +724,7 @@ def reassemble(codec, m, k, pathvars, rec, numeric, sent):
                 raw = [v for (kk, v) in pairs if find_field(desc, kk) is fd]
                 isreq = any(fs["name"] == pth[0] and fs.get("required") for fs in m["fields"])
                 if isreq and raw and fd.type in SCALAR_TYPES and all(is_default_text(fd, v) for v in raw):
-                    why = "reserved-name" if (k == 0 and pth[0] in RESERVED) else reason
-                    key = f"dup:{nx}+query-required-default:{why}"
+                    key = f"dup:{nx}+query-required-default:{reason_for(pth[0], True)}"
             problems.append((key, f"field {name} travels in the {nx} and in the {ny}"))
     # bodies that overlap at message level (body field also spread over the query)
     if b["body"] and b["body"] != "*" and b["body"] in Q:
@@ -730,8 +743,10 @@ def reassemble(codec, m, k, pathvars, rec, numeric, sent):
             elif extra:
                 tag = "extra"
                 reqrep = [e for e in extra if any(fs["name"] == e and fs.get("required") and fs.get("repeated") for fs in m["fields"])]
-                if reqrep and len(reqrep) == len(extra):
-                    tag = "required-repeated-default"
+                one_default = all(isinstance(gd.get(e), list) and len(gd[e]) == 1 and gd[e][0] in ("", 0, "0", False, 0.0)
+                                  and e not in sent for e in reqrep)
+                if reqrep and len(reqrep) == len(extra) and one_default:
+                    tag = "required-repeated-default"      # ONLY: an unset required repeated scalar sent as one default element
             if not any(p[0].startswith("body-not-sent") for p in problems):
                 problems.append((f"reassembly:{tag}", f"path+body+query rebuild {gd}, sent {sent} (lost {lost}, extra {extra})"))
     except Exception as e:  # noqa: ParseError
@@ -742,7 +757,7 @@ def reassemble(codec, m, k, pathvars, rec, numeric, sent):
         if fd.name in bound_top or b["body"] == "*" or b["body"] == fd.name or fd.name in miskeyed:
             continue
         if not any(find_field(desc, kk.split(".")[0]) is fd for (kk, _v) in pairs):
-            problems.append((f"required-default-missing:{reason}", f"required field {fd.name} is not bound by binding {k} and is absent from the query"))
+            problems.append((f"required-default-missing:{reason_for(fd.name, False)}", f"required field {fd.name} is not bound by binding {k} and is absent from the query"))
     return problems
 
 
@@ -771,9 +786,6 @@ def classify_raise(m, val, res):
     exc = res.get("raised")
     if exc == "KeyError" and "body" in res.get("msg", "") and k is not None and not m["bindings"][k]["body"] and m["bindings"][0]["body"]:
         return "body-of-primary-binding-assumed:KeyError"
-    bd = m["bindings"][k]["body"] if k is not None else None
-    if exc == "ValueError" and bd and bd.endswith("_") and bd in load_reserved():
-        return "body-rename:reserved-word-ending-in-underscore"
     return f"call-raised:{exc}"
 
 
@@ -1219,6 +1231,7 @@ def run_corpus(ctx):
     """minimised past failures first, on every run (DESIGN §3.1): each must still fail with its recorded key"""
     r = ctx.rng("corpus")
     stale = []
+    known = {f["key"] for f in ctx.known}
     for fn in sorted(os.listdir(CORPUS)) if os.path.isdir(CORPUS) else []:
         if not fn.endswith(".json"):
             continue
@@ -1228,6 +1241,9 @@ def run_corpus(ctx):
         pl = blob["payload"]
         run_api(ctx, r, pl["spec"], "corpus:" + fn, plans=[pl["plan"]])
         keys = {f["key"] for f in ctx.failures[before:]}
+        if blob["key"] not in known:        # a repaired defect: kept as a regression input, any failure is a violation
+            ctx.count("corpus", fn + (":regression-passes" if not keys else ":REGRESSION-FAILS"))
+            continue
         ctx.count("corpus", fn + (":reproduced" if blob["key"] in keys else ":NOT-reproduced"))
         if blob["key"] not in keys:
             stale.append(fn)
